@@ -492,6 +492,41 @@ func (p *printer) node1(it *item) (string, error) {
 			s += lit + ":" + sp
 		}
 		return p.tag(it.l, s+strings.Join(parts, ","+sp), it.r), nil
+	case "xargs":
+		if a := bytesOf(n["s"]); a != "" {
+			return p.tag(it.l, "lqx_args"+sp+a, it.r), nil
+		}
+		return p.tag(it.l, "lqx_args", it.r), nil
+	case "xset":
+		e, err := p.expr(jobj(n["e"]))
+		if err != nil {
+			return "", err
+		}
+		return p.tag(it.l, "lqx_set"+sp+bytesOf(n["name"])+sp+e, it.r), nil
+	case "xshow":
+		return p.tag(it.l, "lqx_show"+sp+bytesOf(n["name"]), it.r), nil
+	case "xfail":
+		return p.tag(it.l, "lqx_fail"+sp+"boom", it.r), nil
+	case "xfile":
+		return p.tag(it.l, "lqx_file"+sp+bytesOf(n["rel"]), it.r), nil
+	case "xexpand":
+		// the arguments are a little template of their own: texts and objects (the first and the last piece are
+		// not white space: the arguments of a tag are trimmed)
+		b, leadR, trailL, err := p.body(jarr(n, "body"))
+		if err != nil {
+			return "", err
+		}
+		if leadR || trailL || b != strings.TrimSpace(b) || b == "" {
+			return "", fmt.Errorf("xexpand: arguments %q cannot be spelled", b)
+		}
+		return p.tag(it.l, "lqx_expand"+sp+b, it.r), nil
+	case "xblock":
+		name := xblockNames[jint(n, "times")]
+		b, leadR, trailL, err := p.body(jarr(n, "body"))
+		if err != nil {
+			return "", err
+		}
+		return p.tag(it.l, name, leadR) + b + p.tag(trailL, "end"+name, it.r), nil
 	case "include":
 		e, err := p.expr(jobj(n["e"]))
 		if err != nil {
